@@ -90,14 +90,16 @@ def promised_vector(sp, n, elem_spec, dom_ok):
 
 
 def install(reg, src):
-    reg.bounded_checks.setdefault("C11", []).append({
+    for prop_ in ("C11", "C10"):
+      reg.bounded_checks.setdefault(prop_, []).append({
         "name": "vecmat", "script": "bounded_vecmat.py", "timeout": 600,
         "bound": "fixed list of ~75 API recipes (vector arithmetic incl. arrays on either side, reductions, views and slices, "
                  "matrix variables / expressions / transposes / rows / columns / trace / diagonal / symmetric sharing, A @ x, "
-                 "x.dot(Q @ x), shape-mismatch rejection) x vector sizes {2,3,4} (quick) / {1,2,3,4,6} (thorough) x matrix "
+                 "x.dot(Q @ x), element-wise vector / matrix constraints against C- and F-ordered arrays, shape-mismatch "
+                 "rejection) x vector sizes {2,3,4} (quick) / {1,2,3,4,6} (thorough) x matrix "
                  "shapes x 2 seeded value sets, compared entry by entry with NumPy",
-        "why": "views / slices, matrices.py and the x.dot(A @ x) rewriting are not under contract (MatrixVectorProduct and "
-               "matrix operands have no denotation in the spec vocabulary)"})
+        "why": "views / slices, matrices.py (incl. element-wise matrix constraints, C10) and the x.dot(A @ x) rewriting are not "
+               "under contract (MatrixVectorProduct and matrix operands have no denotation in the spec vocabulary)"})
 
     def right_operand(c, rk):
         if rk == "int":
